@@ -7,7 +7,8 @@ class C07(Spec):
     harness = "h_c07"
     lean_deps = ("C06",)
     required_theorems = ("C07.pages_concat", "C07.no_foreign", "C07.prefixCount_eq", "C07.merged_eq_union",
-                         "C07.pages_concat_merged", "C07.no_foreign_merged", "C07.prefixCount_eq_merged", "C07.list_page")
+                         "C07.pages_concat_merged", "C07.no_foreign_merged", "C07.prefixCount_eq_merged", "C07.list_page",
+                         "C07.list_seek", "C07.list_count_zero")
     level_text = ("Lean theorems about the model of ListHelper (List dispatch, IteratorScan, nextKeyValue, PrefixCount, "
                   "collector encodings) and of the merged iterator; tied to common/db by a line-by-line differential run "
                   "(every page, every count, every merged-iterator call) on single databases and 1..3-layer merged views; "
